@@ -1,5 +1,7 @@
 import LdpcV.Driver.C17
 import LdpcV.Driver.C15
+import LdpcV.Driver.Dec
+import LdpcV.Driver.C04
 open LdpcV
 
 def dispatch (line : String) : String :=
@@ -7,6 +9,12 @@ def dispatch (line : String) : String :=
   match inp with
   | "c17" :: rest => Driver.C17.handle rest out
   | "c15" :: rest => Driver.C15.handle rest out
+  | "c01" :: rest => Driver.Dec.handleC01 rest out
+  | "c10" :: rest => Driver.Dec.handleC10 rest out
+  | "c18" :: rest => Driver.Dec.handleC18 rest out
+  | "c03" :: rest => Driver.Dec.handleC03 rest out
+  | "c04" :: rest => Driver.C04.handleC04 rest out
+  | "c05" :: rest => Driver.C04.handleC05 rest out
   | _ => "BADLINE unknown-tag"
 
 partial def loop (h : IO.FS.Stream) (o : IO.FS.Stream) : IO Unit := do
